@@ -112,6 +112,8 @@ def eager_actions(rng, mode, ns):
         if r % 6 == 0:
             acts.setdefault(r, []).append("enq%d s1 %s" % (1 + (r & 1), hx(L.asdu(ident, 3))))
             ident += 1
+        if r % 7 == 3:      # ... and asks for a link test now and then, also while user data waits for its confirmation
+            acts.setdefault(r, []).append("mtest s%d" % (1 + (r // 7) % ns))
     return acts, ident
 
 
@@ -134,7 +136,9 @@ def run(ck):
     fix, bad, praw = L.probe()
     ck.extra["tree_variant"] = fix
     sig = {"a_bal": "oracle:fcb:first-after-reset:balanced", "a_unb": "oracle:fcb:first-after-reset:unbalanced", "b": "oracle:fcb:duplicate-not-answered:balanced",
-           "c": "oracle:fcb:repeat-not-identical:unbalanced-request", "e": "oracle:fcb:answer-uninitialised:unbalanced"}
+           "c": "oracle:fcb:repeat-not-identical:unbalanced-request", "e": "oracle:fcb:answer-uninitialised:unbalanced",
+           "g_unb": "oracle:fcb:confirmed-message-sent-again:unbalanced-test-request", "g_unb2": "oracle:fcb:test-request-never-served:unbalanced",
+           "g_bal": "oracle:fcb:repeat-not-identical:balanced-test-request", "i": "oracle:fcb:out-of-step-after-unserved-frame:unbalanced-secondary"}
     for k, what in bad.items():
         if k in sig:
             ck.fail("input", sig[k], what, {"script": L.PROBES[k], "observed": praw[k]["out"], "harness": "h_ll"})
